@@ -101,6 +101,7 @@ namespace
     std::map<std::string, std::string> wobj;
     std::map<std::string, E> winst;  // witness-side "instance.field" values
     std::vector<NEP> extra_atoms;     // numeric atoms besides the plain variables (field accesses)
+    bool second_batch = false;        // generating constraints for the second read()
 
     mpq_class konst(bool integer)
     {
@@ -188,7 +189,24 @@ namespace
       bool integer = extra_atoms.empty() && !p.ints.empty() && (p.reals.empty() || t.chance(1, 4));
       const auto &vars = integer ? p.ints : p.reals;
       NEP l = nexpr(vars, integer, 2), r = nexpr(vars, integer, t.chance(1, 2) ? 0 : 1);
+      if (second_batch && vars.size() >= 1 && t.chance(2, 3))
+      { // constraints created after the first propagation: short relations between (scaled) variables, so that every
+        // relation constructor meets variables that are basic in the tableau, with coefficients of either sign
+        auto term = [&]() -> NEP {
+          NEP v = nvar(vars[t.pick(vars.size())]);
+          switch (t.pick(4))
+          {
+          case 0: return v;
+          case 1: return nop(NE::MUL, {nconst(konst(integer), integer), v});
+          case 2: return nop(NE::NEG, {v});
+          default: return nop(NE::ADD, {v, nconst(konst(integer), integer)});
+          }
+        };
+        l = term();
+        r = term();
+      }
       int rel = t.pick((o.has("no_neq_over_arith") || o.has("relations_only_positive")) ? 5 : 6);
+      if (second_batch && t.flip()) rel = t.flip() ? 0 : 4; // strict relations have their own constructors
       if (rel == 5) p.feats.insert("arithmetic disequality");
       if (rel == 2) p.feats.insert("arithmetic equality");
       if (rel == 0 || rel == 4) p.feats.insert("strict inequality");
@@ -338,7 +356,8 @@ namespace
             int m = t.range(1, 2);
             for (int q = 0; q < m; ++q)
             {
-              BEP b = bexpr(1, p.planted ? (j == good ? true : t.flip()) : true);
+              // inside a branch a disjunction expression is only conditionally asserted (known finding KF2: its flaw is not conditional)
+              BEP b = bexpr(1, p.planted ? (j == good ? true : t.flip()) : true, true, false);
               cs.push_back(b);
               p.text << "  " << bprint(b) << ";\n";
             }
@@ -828,6 +847,19 @@ namespace
       g.declare_vars();
       if (t.flip()) g.pinned();
       g.constraints();
+      if (t.chance(1, 2))
+      { // a second batch of constraints read by a second read(): the first read() ends with a propagation, so these
+        // constraints are translated against a tableau that has already been pivoted (basic variables, tightened bounds)
+        std::string before = p.text.str();
+        g.second_batch = true;
+        g.constraints();
+        g.second_batch = false;
+        std::string after = p.text.str();
+        p.ctext << after.substr(before.size());
+        p.text.str(before);
+        p.text.seekp(0, std::ios_base::end);
+        p.feats.insert("constraints added by a second read()");
+      }
     }
     std::string text = p.text.str(), ctext = p.ctext.str();
     std::ostringstream log;
